@@ -148,18 +148,18 @@ func builtinGlobalParseFloat(call FunctionCall) Value {
 		return NaNValue()
 	}
 	value, err := strconv.ParseFloat(input, 64)
-	if err != nil {
+	if err != nil && !errors.Is(err, strconv.ErrRange) { // on overflow value is already +-Inf
 		for end := len(input); end > 0; end-- {
 			val := input[0:end]
 			if !parseFloatMatchValid.MatchString(val) {
 				return NaNValue()
 			}
 			value, err = strconv.ParseFloat(val, 64)
-			if err == nil {
+			if err == nil || errors.Is(err, strconv.ErrRange) {
 				break
 			}
 		}
-		if err != nil {
+		if err != nil && !errors.Is(err, strconv.ErrRange) {
 			return NaNValue()
 		}
 	}
